@@ -96,11 +96,14 @@ def _eval_element(eng, n, fr, first):
     eng.pc.append(z3.And(i >= 0, i < nz))
     eng.pure_mode = getattr(eng, "pure_mode", 0) + 1
     mark = next_uid()
+    outer_bound = getattr(eng, "pure_bound", None)
+    eng.pure_bound = (i,) + tuple(outer_bound or ())  # the position variable(s) of the element being evaluated (pyvc/layout.py: a question that does not mention them may fork)
     try:
         eng.assign(gens[0].target, getter(Sym(i, "int")), sub)
         vv = eng.ev(n.elt, sub)
     finally:
         eng.pure_mode -= 1
+        eng.pure_bound = outer_bound
         new = eng.pc[len(saved) + 1:]
         eng.pc = saved
         for h in new:
